@@ -59,13 +59,23 @@ def reach_x(body, starts, stop=(), assume_stmt=None, assume_call=None, init=None
             elif rv['k'] == 'agg' and rv['adt'].endswith(OK_LIKE): e[d['l']] = ('V', 0)
             elif rv['k'] == 'agg' and rv['adt'].endswith(ERR_LIKE): e[d['l']] = ('V', 1)
             elif rv['k'] == 'discr' and variant_at(e, rv['pl']) is not None: e[d['l']] = ('D', variant_at(e, rv['pl']))
-            elif rv['k'] == 'ref' and not rv.get('mut') and not rv['pl']['p'] and isinstance(e.get(rv['pl']['l']), tuple) and e[rv['pl']['l']][0] == 'V': e[d['l']] = ('P', rv['pl']['l'])
+            elif rv['k'] == 'ref' and not rv.get('mut') and not rv['pl']['p'] and rv['pl']['l'] in e: e[d['l']] = ('P', rv['pl']['l'])
+            elif rv['k'] == 'agg' and rv['adt'].startswith('closure:'): e[d['l']] = ('F', rv['adt'][8:])
+            elif rv['k'] == 'cast' and 'FnPointer' in (rv.get('ck') or ''):
+                # a function item / closure turned into a `fn` pointer: the value is that function
+                if o['k'] == 'const' and (o.get('fnp') or o.get('fn')): e[d['l']] = ('F', o.get('fnp') or o.get('fn'))
+                elif plain(o) and isinstance(e.get(o['pl']['l']), tuple) and e[o['pl']['l']][0] == 'F': e[d['l']] = e[o['pl']['l']]
+                else: e.pop(d['l'], None)
             else: e.pop(d['l'], None)
         t = blk['term']
         succs = body.succ(bi)
         if t['k'] == 'call':
             if watch and bi in watch and seen_vals is not None:
-                seen_vals.setdefault(bi, set()).add(e.get(watch[bi], 'unknown'))         # value of a local when this call is reached
+                def val(l):
+                    v = e.get(l, 'unknown')
+                    return e.get(v[1], 'unknown') if isinstance(v, tuple) and v[0] == 'P' else v        # through a shared reference
+                w = watch[bi]
+                seen_vals.setdefault(bi, set()).add(tuple(val(l) for l in w) if isinstance(w, tuple) else val(w))       # value(s) of local(s) when this call is reached
             if not t['dst']['p']:
                 dl = t['dst']['l']
                 nm = t['r'] or t['f']; a0 = t['args'][0] if t['args'] else None
@@ -251,39 +261,77 @@ def errflow_ps(ctx, rule, body, calls, what):
 
 
 # --------------------------------------------------------------------------------- as_minimization_problem
+# Ways of writing a field of self (one comment per entry):
+#   self.f = v                         assignment through a self-rooted place
+#   self.set_f(v)                      a crate function on `&mut self` whose only write is `self.f = <its argument>` (prost setters)
+#   self.f.replace(v) / .insert(v)     Option field: the field becomes Some(v)
+def self_field_writes(ctx, b):
+    out = []
+    selfs = T.copies_of(b, 1)
+    for bi, st in b.stmts():
+        if st['dst']['p'] and st['dst']['l'] in selfs and fields_of_place(st['dst']):
+            op = st['rv']['ops'][0] if st['rv'].get('ops') else None
+            ex = T._rv_expr(b, st['rv']) if st['rv']['k'] != 'use' else T.expr(b, op, depth=12)
+            out.append((bi, [f for a, f in fields_of_place(st['dst'])], op if st['rv']['k'] in ('use', 'cast') else None, ex))
+    for c in b.calls:
+        if not c.args: continue
+        fs, root, _ = T.access_path(b, c.args[0])
+        a0 = c.arg_local(0)
+        if root != 1 or a0 is None or '&mut' not in b.locals[a0]: continue
+        cb = ctx.F.bodies.get(c.path)
+        if cb is not None and not fs and len(c.args) == 2 and cb.argc == 2:
+            w = self_writes(ctx, cb)
+            if len(w) == 1 and not any(x.startswith('*') for x in w):
+                f = next(iter(w))
+                # the field gets the argument (possibly converted), nothing else
+                stores = [st for bi2, st in cb.stmts() if st['dst']['p'] and [x for a, x in fields_of_place(st['dst'])] == [f]]
+                def from_arg(st):
+                    o = (st['rv'].get('ops') or [None])[0]
+                    return o is not None and o['k'] in ('copy', 'move') and 2 in ctx.S.slice_operand(cb, o).params
+                if stores and all(from_arg(st) for st in stores):
+                    ctx.fn(cb)
+                    out.append((c.bb, [f], c.args[1], T.expr(b, c.args[1], depth=12)))
+        elif cb is None and c.item in ('replace', 'insert') and re.search(r'Option::<.*>::(replace|insert)$', c.name) and len(fs) == 1 and len(c.args) == 2:
+            out.append((c.bb, [fs[0][1]], None, ('agg', 'std::option::Option::Some', [T.expr(b, c.args[1], depth=12)])))
+    return out
+
+
+
 def min_rules(ctx):
     R = 'C15.min'
     b = ctx.method(R + '/anchor', INST, 'as_minimization_problem')
     if b is None: return
-    writes = [(bi, st) for bi, st in b.stmts() if st['dst']['p'] and st['dst']['l'] in T.copies_of(b, 1) and fields_of_place(st['dst'])]
+    writes = self_field_writes(ctx, b)           # (bb, field path, value operand or None, value expr)
     tests = [t for t in sense_tests(ctx, b, lambda s: s.has_field(INST, 'sense')) if t[1] == 'Minimize']
     # the test that decides: the one all writes are on the not-Minimize side of
     chosen = None
     for t in tests:
         minr, maxr = regions(b, t)
-        if all(bi in maxr for bi, st in writes) or chosen is None: chosen = (t, minr, maxr)
+        if all(w[0] in maxr for w in writes) or chosen is None: chosen = (t, minr, maxr)
     ctx.check(chosen is not None, R + '/sense-test', 'T-GUARD', b.name, 'no test of self.sense() against Sense::Minimize', b.site())
     if chosen is None: return
     t, minr, maxr = chosen
     is_min, other = t[2], t[3]
     rets = set(b.return_blocks())
     mut_calls = [x for x in b.calls if any(a['k'] in ('copy', 'move') and '&mut' in b.locals[a['pl']['l']] for a in x.args)]
-    ctx.check(not [bi for bi, st in writes if bi in minr] and not [x for x in mut_calls if x.bb in minr], R + '/minimize-is-untouched', 'T-BRANCHFX', b.name,
+    ctx.check(not [w for w in writes if w[0] in minr] and not [x for x in mut_calls if x.bb in minr], R + '/minimize-is-untouched', 'T-BRANCHFX', b.name,
               'a minimisation problem is modified (the conversion must be idempotent)', b.site(is_min[0]))
     def every_other_path_passes(bbs):
         return bool(bbs) and not any(reach_x(b, [o], stop=set(bbs)) & rets for o in other)      # path-sensitive: `matches!` leaves a bool behind
     def at_most_once(bbs):
         return not any(b.reach(b.succ(x)) & set(bbs) for x in bbs)
-    sw = [(bi, st) for bi, st in writes if fields_of_place(st['dst']) == [(INST, 'sense')]]
-    ow = [(bi, st) for bi, st in writes if fields_of_place(st['dst']) == [(INST, 'objective')]]
+    sw = [w for w in writes if w[1] == ['sense']]
+    ow = [w for w in writes if w[1] == ['objective']]
     oks = bool(sw)
-    for bi, st in sw:
-        s = ctx.S.slice_operand(b, st['rv']['ops'][0])
-        oks = oks and bi in maxr and s.has_const(r'Sense::Minimize') and not s.has_const(r'Sense::Maximize')
-    ctx.check(oks and every_other_path_passes([bi for bi, st in sw]), R + '/sense-becomes-minimize', 'T-CONST', b.name, 'sense is not set to Minimize on every path of a maximisation problem', b.site())
+    for bi, fld, op, ex in sw:
+        # the value written is Minimize: `Sense::Minimize as i32` (a constant in the slice) or the variant itself handed to a setter
+        s = ctx.S.slice_operand(b, op) if op is not None else None
+        v = enum_variant_of_operand(ctx, b, op) if op is not None else None
+        is_min_val = s is not None and ((s.has_const(r'Sense::Minimize') and not s.has_const(r'Sense::Maximize')) or bool(v and v.endswith('Sense::Minimize')))
+        oks = oks and bi in maxr and is_min_val
+    ctx.check(oks and every_other_path_passes([w[0] for w in sw]), R + '/sense-becomes-minimize', 'T-CONST', b.name, 'sense is not set to Minimize on every path of a maximisation problem', b.site())
     oko = bool(ow); neg_impls = set()
-    for bi, st in ow:
-        ex = T.expr(b, st['rv']['ops'][0], depth=12)
+    for bi, fld, op, ex in ow:
         negs = function_negations(ex)
         # exactly one negation, of what the getter `objective()` returns (owned, borrowed, cloned: the conversions are transparent)
         oko = oko and (ex[0] == 'agg' and ex[1].endswith('Option::Some') and len(negs) == 1 and T.expr_has_call(negs[0][1], 'objective')
@@ -291,7 +339,7 @@ def min_rules(ctx):
         for n, arg in negs:
             c = [x for x in b.calls if x.bb == n[4]]
             if c and n[1] == 'neg': neg_impls.add(c[0].path)
-    ctx.check(oko and every_other_path_passes([bi for bi, st in ow]) and at_most_once([bi for bi, st in ow]), R + '/objective-negated-once', 'T-BRANCHFX', b.name,
+    ctx.check(oko and every_other_path_passes([w[0] for w in ow]) and at_most_once([w[0] for w in ow]), R + '/objective-negated-once', 'T-BRANCHFX', b.name,
               'objective is not replaced by Some(-objective()) exactly once on the maximisation path', b.site())
     writes_only(ctx, R + '/only-sense-and-objective', b, {'sense', 'objective'})
     # the schema number behind Sense::Minimize
@@ -366,7 +414,7 @@ def by_sense(ctx, body, sites, tests):
     return out
 
 
-def ordering_expr(cb, e, flips=0):
+def ordering_expr(cb, e, flips=0, pa=2, pb=3, want=('1',)):
     """an Ordering-valued expression of a comparator closure -> 'natural' (cmp(a.1, b.1)) / 'reversed' (cmp(b.1, a.1)),
     seen through `.reverse()` and transparent wrappers"""
     for _ in range(6):
@@ -376,48 +424,148 @@ def ordering_expr(cb, e, flips=0):
     if not (e[0] == 'call' and e[1] in CMP_ITEMS and len(e[3]) == 2): return None
     def side(x):
         x = T.strip_wrappers(x)
-        pl = [y for y in T.expr_walk(x) if y[0] == 'place' and y[1] in (2, 3)]
+        pl = [y for y in T.expr_walk(x) if y[0] == 'place' and y[1] in (pa, pb)]
         return (pl[0][1] if pl else None, [f for a, f in T.expr_fields(x) if a == 'tuple'][-1:])
     (i0, f0), (i1, f1) = side(e[3][0]), side(e[3][1])
-    if not (f0 == ['1'] and f1 == ['1'] and {i0, i1} == {2, 3}): return 'not-the-objective-values'
-    nat = (i0, i1) == (2, 3)
+    if not (f0 == list(want) and f1 == list(want) and {i0, i1} == {pa, pb}): return 'not-the-objective-values'
+    nat = (i0, i1) == (pa, pb)
     return 'natural' if nat == (flips % 2 == 0) else 'reversed'
 
 
-def comparator_table(ctx, cb):
-    """min_by / max_by comparator closure (a = _2, b = _3): per sense, what the *returned* ordering is:
-         a.1.total_cmp(&b.1) -> natural;  b.1.total_cmp(&a.1) -> reversed;  <natural>.reverse() -> reversed; ..."""
-    sites = []
+SENSES = ('Minimize', 'Maximize', 'Unspecified')
+
+
+def sense_assumptions(ctx, body, S):
+    """assumed results of every test of a Sense value in `body` when that value is the variant S:
+    (assume_stmt, assume_call, tested operands)"""
+    a_st = {}; a_call = {}; ops = []
+    adt = ctx.F.adt('v1::instance::Sense')
+    num = {v['name']: v['discr'] for v in adt['variants']} if adt else {}
+    for c in body.calls:
+        if c.item in ('eq', 'ne') and 'PartialEq' in (c.trait or '') and re.search(SENSE_RE, c.self_ty or ''):
+            vs = [enum_variant_of_operand(ctx, body, a) for a in c.args]
+            v = [x.split('::')[-1] for x in vs if x and 'Sense::' in x]
+            src = [a for a, x in zip(c.args, vs) if not (x and 'Sense::' in x)]
+            if v and src: a_call[c.bb] = (v[0] == S) == (c.item == 'eq'); ops.append(src[0])
+    for bi, st in body.stmts():
+        rv = st['rv']
+        if rv['k'] == 'discr' and not st['dst']['p'] and re.search(SENSE_RE, body.locals[rv['pl']['l']].lstrip('&').strip()) and S in num:
+            a_st[id(st)] = ('D', num[S]); ops.append({'k': 'copy', 'pl': rv['pl']})
+    for t in sense_tests(ctx, body):
+        # the integer form found by sense_tests (site = the `bin Eq` statement's block)
+        for bi, st in body.stmts():
+            if bi == t[0] and st['rv']['k'] == 'bin' and st['rv']['op'] in ('Eq', 'Ne') and not st['dst']['p'] and any(o is t[4] for o in st['rv']['ops']):
+                a_st[id(st)] = (t[1] == S) == (st['rv']['op'] == 'Eq'); ops.append(t[4])
+    return a_st, a_call, ops
+
+
+def fn_pointer_callee(cb, call):
+    """local holding the function an indirect call goes through.  The fact file does not export the callee operand of an
+    indirect call (engine gap, see notes): it is the fn-pointer typed local of the body that has no recorded use."""
+    cands = [l for l, ty in enumerate(cb.locals) if l > cb.argc and re.search(r'(^|> )fn\(', ty.strip()) and not cb.uses.get(l) and cb.defs_of(l)]
+    indirect = [c for c in cb.calls if c.name.startswith('<indirect')]
+    return cands[0] if len(cands) == 1 and len(indirect) == 1 and indirect[0] is call else None
+
+
+def ordering_of_function(ctx, name, depth=0):
+    """a two-argument function value returning an Ordering: 'natural' = cmp(first, second), 'reversed' = cmp(second, first)"""
+    fb = ctx.F.bodies.get(name)
+    if fb is None:
+        return 'natural' if re.search(r'::(%s)$' % '|'.join(CMP_ITEMS), name) else None        # f64::total_cmp, Ord::cmp, PartialOrd::partial_cmp
+    pa, pb = (2, 3) if fb.kind == 'closure' else (1, 2)
+    out = set()
+    for k, bi, d in fb.defs_of(0):
+        if k == 'call':
+            c = [x for x in fb.calls if x.bb == bi][0]
+            e = ('call', c.item, c.name, [T.expr(fb, a) for a in c.args], bi)
+        elif not d['dst']['p']: e = T._rv_expr(fb, d['rv'])
+        else: continue
+        out.add(ordering_expr(fb, e, pa=pa, pb=pb, want=[]) or 'unrecognised-ordering')
+    return out.pop() if len(out) == 1 else 'unrecognised-ordering'
+
+
+def comparator_under(ctx, b, sc, cb, S, parent_env):
+    """what the comparator closure `cb` of selection call `sc` returns when the sense is S: set of 'natural' / 'reversed' / ...
+    parent_env: values the closure's captures have when `sc` is reached (function values, flags computed from the sense)."""
+    a_st, a_call, _ = sense_assumptions(ctx, cb, S)
+    # reads of captured variables whose value is known
+    for bi, st in cb.stmts():
+        if st['dst']['p'] or st['rv']['k'] not in ('use',) or st['rv']['ops'][0]['k'] not in ('copy', 'move'): continue
+        e = T.expr(cb, st['rv']['ops'][0], depth=6)
+        if e[0] == 'place' and e[1] == 1 and len(e[2]) == 1 and e[2][0][0] == 'closure' and e[2][0][1].isdigit():
+            v = parent_env.get(int(e[2][0][1]), 'unknown')
+            deref = '*' in st['rv']['ops'][0]['pl']['p'] and not cb.locals[st['dst']['l']].strip().startswith('&')
+            if v != 'unknown' and (deref or not cb.locals[st['dst']['l']].strip().startswith('&')): a_st.setdefault(id(st), v)
+    indirect = {c.bb: fn_pointer_callee(cb, c) for c in cb.calls if c.name.startswith('<indirect')}
+    seen = {}
+    r = reach_x(cb, [0], assume_stmt=a_st, assume_call=a_call, watch={bb: l for bb, l in indirect.items() if l is not None}, seen_vals=seen)
+    out = set()
     for k, bi, d in cb.defs_of(0):
+        if bi not in r: continue
         if k == 'call':
             c = [x for x in cb.calls if x.bb == bi][0]
-            e = ('call', c.item, c.name, [T.expr(cb, a) for a in c.args], bi)
+            args = [T.expr(cb, a) for a in c.args]
+            if bi in indirect:
+                # ranking(a, b) through a function value chosen outside: compose the argument order with what that function does
+                vals = seen.get(bi, {'unknown'})
+                order = ordering_expr(cb, ('call', 'cmp', '', args, bi))
+                for v in vals:
+                    f = ordering_of_function(ctx, v[1]) if isinstance(v, tuple) and v[0] == 'F' else None
+                    if f in ('natural', 'reversed') and order in ('natural', 'reversed'): out.add('natural' if f == order else 'reversed')
+                    else: out.add('unrecognised-function-value')
+                continue
+            e = ('call', c.item, c.name, args, bi)
         elif not d['dst']['p']: e = T._rv_expr(cb, d['rv'])
         else: continue
-        sites.append((bi, ordering_expr(cb, e) or 'unrecognised-ordering'))
-    return by_sense(ctx, cb, sites, sense_tests(ctx, cb)), bool(sites)
+        out.add(ordering_expr(cb, e) or 'unrecognised-ordering')
+    return out
 
 
 def selection_by_call(ctx, R, b, sel):
-    """`candidates.min_by(cmp)` / `max_by(cmp)`"""
-    rows = {}; sense_ok = True
-    body_tests = sense_tests(ctx, b)
+    """`candidates.min_by(cmp)` / `max_by(cmp)`: for each value of the sense, which selection call is reached and what its
+    comparator returns -- wherever the test of the sense sits: inside the comparator, around the selection calls
+    (`match sense { Minimize => min_by(..), _ => max_by(..) }`), or hoisted into a flag / a function value the comparator uses."""
+    per = {}; closures = {}
     for sc in sel:
-        cls = [ctx.F.bodies.get(closure_of(b, sc.args[1]))]
-        cls = [x for x in cls if x is not None and x.argc == 3]
-        if len(cls) != 1:
+        cb = ctx.F.bodies.get(closure_of(b, sc.args[1]))
+        if cb is None or cb.argc != 3:
             ctx.bad(R + '/comparator', 'T-BRANCHFX', b.name, 'comparator closure of %s not found' % sc.item, b.site(sc.bb)); continue
-        cb = ctx.fn(cls[0])
+        closures[sc.bb] = ctx.fn(cb)
         ctx.ok(R + '/comparator', 'T-BRANCHFX', b.site(sc.bb))
-        tab, _ = comparator_table(ctx, cb)
-        sel_of = {'natural': 'smaller', 'reversed': 'larger'} if sc.item == 'min_by' else {'natural': 'larger', 'reversed': 'smaller'}
-        for side, v in by_sense(ctx, b, [(sc.bb, None)], body_tests).items():
-            if side in tab:
-                val = sel_of.get(tab[side], tab[side])
-                rows[side] = val if rows.get(side, val) == val else 'conflict'
-        # the sense compared is the sample set's own
+    tested = []
+    for S in SENSES:
+        a_st, a_call, ops = sense_assumptions(ctx, b, S); tested += ops
+        # the locals behind the closure's captures, watched at the selection call
+        caps = {}
+        for sc in sel:
+            if sc.bb not in closures: continue
+            ls = []
+            l = sc.args[1]['pl']['l']
+            for _ in range(6):
+                ds = b.defs_of(l)
+                if len(ds) == 1 and ds[0][0] == 'stmt' and ds[0][2]['rv']['k'] == 'agg' and ds[0][2]['rv']['adt'].startswith('closure:'):
+                    ls = [o['pl']['l'] if o['k'] in ('copy', 'move') and not o['pl']['p'] else -1 for o in ds[0][2]['rv']['ops']]; break
+                if len(ds) == 1 and ds[0][0] == 'stmt' and ds[0][2]['rv']['k'] == 'use' and ds[0][2]['rv']['ops'][0]['k'] in ('copy', 'move'): l = ds[0][2]['rv']['ops'][0]['pl']['l']; continue
+                break
+            caps[sc.bb] = tuple(ls)
+        seen = {}
+        r = reach_x(b, [0], assume_stmt=a_st, assume_call=a_call, watch={bb: ls for bb, ls in caps.items() if ls}, seen_vals=seen)
+        verdicts = set()
+        for sc in sel:
+            if sc.bb not in r or sc.bb not in closures: continue
+            sel_of = {'natural': 'smaller', 'reversed': 'larger'} if sc.item == 'min_by' else {'natural': 'larger', 'reversed': 'smaller'}
+            envs = seen.get(sc.bb) or {tuple('unknown' for _ in caps.get(sc.bb, ()))}
+            for vals in envs:
+                env = {k: v for k, v in enumerate(vals) if v != 'unknown'}
+                for o in comparator_under(ctx, b, sc, closures[sc.bb], S, env):
+                    verdicts.add(sel_of.get(o, o))
+        per[S] = verdicts.pop() if len(verdicts) == 1 else ('conflict:%s' % sorted(verdicts) if verdicts else 'no-selection-reached')
+    rows = {'min': per['Minimize'], 'max': per['Maximize'] if per['Maximize'] == per['Unspecified'] else 'Maximize:%s/Unspecified:%s' % (per['Maximize'], per['Unspecified'])}
+    # the sense compared is the sample set's own
+    sense_ok = bool(sel)
+    for sc in sel:
         s = ctx.S.slice_operand(b, sc.args[1])
-        sense_ok = sense_ok and (s.has_field(SS, 'sense') or any(ctx.S.slice_operand(b, t[4]).has_field(SS, 'sense') for t in body_tests))
+        sense_ok = sense_ok and (s.has_field(SS, 'sense') or any(ctx.S.slice_operand(b, o).has_field(SS, 'sense') for o in tested))
     return rows, sense_ok, [sc.bb for sc in sel]
 
 
@@ -783,19 +931,26 @@ def legacy_rules(ctx):
         if b is None: continue
         emp = [c for c in b.calls if c.item == 'is_empty' and (SS, 'feasible_relaxed') in T.access_path(b, c.args[0])[0]]
         # which field is returned when `self.feasible_relaxed.is_empty()` is true / false: probe both values
-        def field_of(pl, r, depth=6):
-            # field of self a reference points into; a local assigned in several branches (`match` / `if` as an
-            # expression) is resolved through the assignments that are reachable under the probe
-            fs, root, _ = T.access_path(b, {'k': 'copy', 'pl': pl})
-            if fs: return {fs[-1][1]}
+        def field_of(pl, r, pend=(), depth=12):
+            # field of self a reference points into.  A local assigned in several branches (`match` / `if` as an expression, an
+            # inlined helper's result) is resolved through the assignments reachable under the probe; a tuple built on the way
+            # (`(relaxed, unrelaxed)` returned by a shared helper) is taken apart again: `pend` = tuple components still to select
+            flds = fields_of_place(pl)
+            named = [(a, f) for a, f in flds if a != 'tuple' and not T.WRAPPER_OWNER.search(a)]
+            if named: return {named[-1][1]} if (named[-1][0] == SS or named[-1][0].endswith('::' + SS)) and not pend else {None}
+            pend = tuple(f for a, f in flds if a == 'tuple') + tuple(pend)
+            l = pl['l']
+            if depth == 0 or 1 <= l <= b.argc: return {None}
             out = set()
-            if depth > 0 and root is not None and root > b.argc:
-                for k, bi, d in b.defs_of(root):
-                    if bi not in r: continue
-                    if k == 'stmt' and not d['dst']['p'] and d['rv']['k'] in ('ref', 'use'):
-                        pl2 = d['rv'].get('pl') or d['rv']['ops'][0].get('pl')
-                        out |= field_of(pl2, r, depth - 1) if pl2 else {None}
-                    else: out.add(None)
+            for k, bi, d in b.defs_of(l):
+                if bi not in r: continue
+                if k != 'stmt' or d['dst']['p']: out.add(None); continue
+                rv = d['rv']
+                if rv['k'] == 'ref': out |= field_of(rv['pl'], r, pend, depth - 1)
+                elif rv['k'] == 'use' and rv['ops'][0]['k'] in ('copy', 'move'): out |= field_of(rv['ops'][0]['pl'], r, pend, depth - 1)
+                elif rv['k'] == 'agg' and rv['adt'] == 'tuple' and pend and pend[0].isdigit() and int(pend[0]) < len(rv['ops']) and rv['ops'][int(pend[0])]['k'] in ('copy', 'move'):
+                    out |= field_of(rv['ops'][int(pend[0])]['pl'], r, pend[1:], depth - 1)
+                else: out.add(None)
             return out or {None}
         def ret_fields(value):
             r = reach_x(b, [0], assume_call={c.bb: value for c in emp})
